@@ -96,6 +96,25 @@ var plans = map[string]propPlan{
 	"SELF": {"other", plain(2)},
 }
 
+// floors lists, per property, coverage cells (by prefix) that a run must have
+// observed at least once; otherwise the verdict is inconclusive, never "held".
+var floors = map[string][]string{
+	"C01": {"combo:", "start:mid-file", "start:4"},
+	"C02": {"unit:TxXID", "unit:TxRollback", "unit:Rotate", "unit:Restart", "rollback-empty-delivery", "metamorphic-equal"},
+	"C03": {"history:rotation", "history:large-offsets", "resumed", "chain:rotate-between", "label:offset>=2^31"},
+	"C04": {"fault:fin", "fault:rst", "fault:err", "fault:eof", "fault:cancel-master", "fault:cancel-handler", "fault:handler-err", "fault:mapper-err", "fault:mapper-count", "fault:inject-rowsquery", "fault:inject-invalid", "fault:short0", "fault:badseq", "fault:connect-refused", "fault:read-error"},
+	"C05": {"reader:network", "reader:holding", "quiescent", "cause:cancel", "cause:handler", "cause:preconnect", "cause:transport", "cause:master-err", "cause:eof", "cell:cancel/reader=holding/handler=blocked", "cell:cancel/reader=network"},
+	"C06": {"cause:cancel", "cause:eof", "cause:master-err", "cause:transport", "cause:handler", "cause:mapper", "cause:gate-reject", "cause:unsupported-event", "cause:preconnect", "err-message-carried", "error-call:immediately", "error-call:after-quiescence"},
+	"C07": {"attempt:position-set", "attempt:stored-position", "server-id>=2^31", "set-rejected", "stored-position-after-stream"},
+	"C08": {"mode:observe", "mode:scribble"},
+	"C15": {"stream:id-rebound-after-restart"},
+	"C17": {"gate:structured", "gate:random-valid", "gate:random-invalid", "gate:truncated-or-extended-events", "stream:inject:empty", "stream:inject:truncated-by-1", "stream:inject:random"},
+	"C10": {"e2e:values-compared"},
+	"C11": {"e2e:values-compared"},
+	"C12": {"e2e:values-compared", "tz="},
+	"C20": {"e2e:streamed-transactions"},
+}
+
 type violation struct {
 	Key    string `json:"key"`
 	Msg    string `json:"msg"`
@@ -512,6 +531,25 @@ func main() {
 			knownHits = append(knownHits, v)
 		} else {
 			newVios = append(newVios, v)
+		}
+	}
+
+	// ---- coverage floor: the monitors must have seen what the property is about
+	if replay == "" {
+		for _, want := range floors[prop] {
+			seen := false
+			for k, v := range cells {
+				if strings.HasPrefix(k, want) && v > 0 {
+					seen = true
+					break
+				}
+			}
+			if !seen {
+				inconcl = append(inconcl, fmt.Sprintf("coverage floor not met: no observation of %q in this run", want))
+			}
+		}
+		if evals == 0 {
+			inconcl = append(inconcl, "coverage floor not met: the run evaluated nothing")
 		}
 	}
 
